@@ -397,6 +397,20 @@ Section Layers.
                       pre))
       (map (fun xl => head_slice d h (lv xl)) pre).
 
+  (* output column i of ExcelFormerConv computed from the FIRST i+1 input columns only (statement of
+     causality: Props/C15.v proves this equals column i of excel_conv_core_row on the full row) *)
+  Definition excel_col_prefix (H d : nat) (norm1 lq lk lv : vec -> vec) (lout : option (vec -> vec))
+             (norm2 a1 a2 : vec -> vec) (pre : mat) (i : nat) : option vec :=
+    let xs := map norm1 pre in
+    match nth_error xs i with
+    | None => None
+    | Some xi =>
+        let r := flat_map (fun h => diam_head_prefix d lq lk lv h xi xs) (seq 0 H) in
+        let r := match lout with Some L => L r | None => r end in
+        let x2 := vadd O r xi in
+        Some (vadd O (aium_vec a1 a2 (norm2 x2)) x2)
+    end.
+
   (* ================================================================== *)
   (* ExcelFormerDecoder, ExcelFormer                                      *)
   (* ================================================================== *)
